@@ -908,8 +908,26 @@ func (it *Interp) makeSlice(fr *frame, in *ssa.MakeSlice) Value {
 		z := c.BV(0, 8)
 		return Bytes{Obj: &ByteObj{fn: func(*Term) *Term { return z }, capT: cp}, Off: c.Int(0), Len: ln, Cap: cp}
 	}
-	n := it.concInt(cp)
+	if it.allocBound != nil {
+		// allocation obligation for slices of other element types: elements × element size
+		sz := int64(8)
+		func() {
+			defer func() { recover() }()
+			sz = max(types.SizesFor("gc", "amd64").Sizeof(et), 1)
+		}()
+		it.noteAlloc(c.Bin(OpMul, cp, c.Int(sz)))
+	}
 	l := it.concInt(ln)
+	n := l
+	if cp.IsConst() {
+		n = int(cp.Sint())
+	} else if it.branch(c.Bin(OpUlt, c.Int(1<<20), cp)) {
+		// a huge symbolic capacity: the run-time either panics or allocates out of proportion; the
+		// allocation obligation above has reported it if one is set
+		it.rtPanic("makeslice: cap out of range (or allocation of more than 2^20 elements)")
+	}
+	// a symbolic capacity below that is not tracked: the slice gets cap == len (only observable
+	// through aliasing after append)
 	if n > 1<<20 {
 		unsupported("make of generic slice with %d elements", n)
 	}
